@@ -325,6 +325,8 @@ def impl_solve(prob, cfg, limit=None):
         return "err", "oob", None
     except ValueError as e:
         return "err", "refused", None
+    except Hang as e:
+        return "hang", str(e), None
 
 
 def impl_optimize(prob, cfg, v, minimize):
@@ -337,6 +339,8 @@ def impl_optimize(prob, cfg, v, minimize):
         return "err", "stack-overflow" if "stack overflow" in str(e) else "oob", None
     except OverflowError:
         return "err", "oob", None
+    except Hang as e:
+        return "hang", str(e), None
 
 
 # ----------------------------------------------------------------------------- evidence / verdict
